@@ -244,6 +244,20 @@ var ruleScopeS2 = &Rule{
 			// curScope stores
 			isScopeStore := func(fresh bool) func(ssa.Instruction) bool {
 				return func(ins ssa.Instruction) bool {
+					// a callee that puts its parameter into curScope (exitScope(saved)) restores the scope when it is handed
+					// anything but a freshly created one
+					if call, isC := ins.(*ssa.Call); isC && !fresh {
+						if g := call.Call.StaticCallee(); g != nil {
+							if pi := storesParamIntoField(g, "curScope"); pi >= 0 && pi < len(call.Call.Args) {
+								if ac, isCall := call.Call.Args[pi].(*ssa.Call); isCall {
+									if sc := ac.Call.StaticCallee(); sc != nil && sc.Name() == "CreateScopeInfo" {
+										return false
+									}
+								}
+								return true
+							}
+						}
+					}
 					st, ok := ins.(*ssa.Store)
 					if !ok {
 						return false
